@@ -3,10 +3,22 @@ import itertools
 import numpy as np
 import gen as G
 import tdgen as T
+import emit as E
+import sweeprec as SR
 
 PROP = 'C10'
-COQ_IMPORTS = ['PT.Base.Scalar']
-FORM = 'see coq(): trace refinement where the model is available'
+COQ_IMPORTS = SR.COQ_IMPORTS
+COQ_PREAMBLE = SR.PREAMBLE
+SHARD = 4
+FORM = SR.FORM_TEXT % 'calculate_ground_state_local_singlesite / calculate_ground_state_local_twosite'
+TRUSTED = SR.TRUSTED
+PARTIAL = ('proved (Properties/C10.v): for one local optimisation under the mixed-canonical invariant, relative to the Ritz contract of the local eigensolver '
+           '(theta = <A\'|H_eff A\'>, |A\'| = 1, theta <= Rayleigh quotient of the start tensor): the reported energy is <psi|H|psi> of the state with the new '
+           'tensor, it is >= every lambda with H >= lambda, it does not exceed the energy of the normalised state before the step; the QR gauge moves do not '
+           'change the state; the model returns one energy per sweep, that of the last local problem of the sweep; the solver schedule for all L. NOT '
+           'mechanised: the induction over the sweep that re-establishes the invariant after every QR / split (so monotonicity along a whole run and the '
+           'equality with the energy of the RETURNED state are proved per step only), reaching the exact ground energy on a complete manifold, rounding')
+ASSUMPTIONS = SR.ASSUMPTIONS
 RULE = ('Hermitian MPOs (XXZ, Ising, Bose-Hubbard, Fermi-Hubbard, random Hermitian with/without charges), L in 2..5, d >= 2, any bond profile, '
         '1..3 sweeps, 2..6 Lanczos iterations (complete-manifold cases: enough iterations), repeated invocations; two-site with zero split tolerance; '
         'non-trivial = max bond >= 2; distinct by input digest')
@@ -24,6 +36,7 @@ def cases(rng, tier):
         out.append({'kind': rng.choice(['single', 'two']), 'model': model, 'L': L, 'seed': rng.getrandbits(30),
                     'sweeps': rng.choice([1, 2, 3]), 'numiter': rng.choice([2, 3, 4, 6]), 'repeat': rng.choice([1, 1, 2]),
                     'Dmax': rng.choice([1, 2, 3, 4]), 'complete': rng.random() < 0.3, 'scale': rng.choice([1.0, 3.0])})
+    SR.mark_replay(out, {'quick': 24, 'thorough': 120, 'search': 0}[tier], 'sweeps')
     return out
 
 
@@ -59,12 +72,19 @@ def impl(case):
     if case['complete']:
         numiter = min(int(max(a.size for a in psi.A) * (len(H.qd) if case['kind'] == 'two' else 1)) + 2, 120)
     reported, finals, norms = [], [], []
+    numeric = SR.numeric_ok(case, H, psi)
+    runs = []
+    import pytenet.minimization as MI
     try:
         for rep in range(case['repeat']):
             if case['kind'] == 'single':
-                en = ptn.calculate_ground_state_local_singlesite(H, psi, case['sweeps'], numiter_lanczos=numiter)
+                en, run = SR.run_recorded(MI, ptn.calculate_ground_state_local_singlesite, H, psi, None, numiter, numeric,
+                                          case['sweeps'], numiter_lanczos=numiter)
             else:
-                en = ptn.calculate_ground_state_local_twosite(H, psi, case['sweeps'], numiter_lanczos=numiter, tol_split=0)
+                en, run = SR.run_recorded(MI, ptn.calculate_ground_state_local_twosite, H, psi, None, numiter, numeric,
+                                          case['sweeps'], numiter_lanczos=numiter, tol_split=0)
+            run['ens'] = [float(x) for x in en]
+            runs.append(run)
             v = G.mps_dense(psi.A)
             reported += [float(x) for x in en]
             norms.append(float(np.linalg.norm(v)))
@@ -75,7 +95,7 @@ def impl(case):
         return {'error': type(e).__name__, 'detail': '%s [%s:%d]' % (str(e)[:160], tb.filename.split('/')[-1], tb.lineno)}
     return {'reported': reported, 'finals': finals, 'norms': norms, 'e_start': e_start, 'e_gs': e_gs, 'H_unchanged': dig() == h0,
             'hscale': float(np.linalg.norm(Hd, 2)), 'dims0': None, 'dims': [int(x) for x in psi.bond_dims], 'sparsity': G.mps_sparsity_ok(psi),
-            'sweeps': case['sweeps'], 'complete': case['complete']}
+            'sweeps': case['sweeps'], 'complete': case['complete'], 'runs': runs, 'H': SR.enc_mpo(H, numeric)}
 
 
 def prop(case, r):
@@ -114,13 +134,16 @@ def prop(case, r):
 
 
 def coq(case, r):
-    return None
+    if 'skip' in r or 'error' in r:
+        return None
+    return ' && '.join('(%s)' % SR.term_dmrg(case['kind'] == 'two', r['H'], case['sweeps'], run, run['ens']) for run in r['runs'])
 
 
 def klass(case, r):
     if 'skip' in r or 'error' in r:
         return case['kind'] + '/' + ('skip' if 'skip' in r else 'error')
-    return '%s/%s/L%d/%s' % (case['kind'], case['model'], case['L'], 'complete' if case['complete'] else 'it%d' % case['numiter'])
+    return '%s/%s/L%d/%s%s' % (case['kind'], case['model'], case['L'], 'complete' if case['complete'] else 'it%d' % case['numiter'],
+                                 '/replay' if r['runs'][0]['numeric'] else '')
 
 
 def nontrivial(case, r):
